@@ -413,6 +413,67 @@ static void check_io_faults(const TypeOps& t) {
   }
 }
 
+// ================================================================ C03 / C06 over handle-bearing types (--c03, --c06)
+// The codec lab's writer rigs have no handle channel, so its format and capacity checks never see a Handle - the one type whose
+// GetSize over-estimates and whose table entries are therefore padded. Same oracles here through the probe writer.
+static void check_format_and_size(const TypeOps& t, bool c06) {
+  DomainCfg cfg;
+  cfg.big_strings = false;
+  cfg.cap = A.thorough() ? 400 : 120;
+  std::vector<Val> dom = domain(t.sch, cfg, 0);
+  const std::string P = c06 ? "C06" : "C03";
+  for (size_t i = 0; i < dom.size(); i++) {
+    Obj src(t, dom[i]);
+    Val w = src.val();
+    std::string cid = P + "|H|" + t.name + "|v" + std::to_string(i);
+    if (!R.want(cid)) continue;
+    auto det = [&] { return "{\"type\":" + jstr(t.name) + ",\"value\":" + vjson(t.sch, w) + "}"; };
+    ProbeWriter pw, pw2;
+    int e = t.probe_write(src.p, pw);
+    t.probe_write(src.p, pw2);
+    R.counters["evaluations"]++;
+    R.counters["transitions"]++;
+    R.counters["states"]++;
+    if (t.sch.has_handle()) R.nontrivial(cid);
+    if (e) { R.viol(P + "|write-failed|" + shape_of(t.sch) + "+Hnd", cid, std::string("Write failed with ") + ename(e), det()); continue; }
+    size_t k = 0;
+    Enc enc;
+    enc.href = [&](int64_t h) { int64_t r = h < 0 ? -1 : (int64_t)k; k++; return r; };  // the probe's default answers
+    refenc(t.sch, w, enc);
+    if (!c06) {
+      if (pw.out != enc.bytes)
+        R.viol("C03|bytes-differ|" + shape_of(t.sch) + "+Hnd", cid, "encoder output differs from the documented layout (type tag, reference, entry sizes and padding)",
+               "{\"type\":" + jstr(t.name) + ",\"got\":" + jstr(hex(pw.out)) + ",\"want\":" + jstr(hex(enc.bytes)) + "}");
+      else if (pw2.out != pw.out) R.viol("C03|not-deterministic|" + shape_of(t.sch) + "+Hnd", cid, "writing the same object twice produced different bytes", det());
+      else R.outcome("bytes-equal-reference");
+      continue;
+    }
+    // C06: GetSize is an upper bound; inside a table the declared size of each entry equals the bytes that follow it (the
+    // reference layout has exactly that); a sink of fewer bytes refuses with WriteLimitReached and never holds more than its capacity
+    const size_t gs = t.getsize(src.p);
+    if (gs < pw.out.size()) { R.viol("C06|getsize-underestimates|" + shape_of(t.sch) + "+Hnd", cid, "GetSize " + std::to_string(gs) + " < " + std::to_string(pw.out.size()) + " bytes written", det()); continue; }
+    if (pw.out != enc.bytes) {
+      R.viol("C06|entry-size-vs-bytes|" + shape_of(t.sch) + "+Hnd", cid, "the bytes written differ from the documented layout (declared entry sizes vs. value plus padding)",
+             "{\"type\":" + jstr(t.name) + ",\"got\":" + jstr(hex(pw.out)) + ",\"want\":" + jstr(hex(enc.bytes)) + "}");
+      continue;
+    }
+    for (size_t cap = 0; cap <= gs + 1; cap++) {
+      ProbeWriter pc;
+      pc.capacity = cap;
+      int ec = t.probe_write(src.p, pc);
+      R.counters["evaluations"]++;
+      std::string why;
+      if (cap >= gs && ec) why = std::string("Write into a sink with GetSize bytes of room failed with ") + ename(ec);
+      else if (cap < pw.out.size() && !ec) why = "Write into a sink smaller than the encoding succeeded";
+      else if (ec && ec != (int)nop::ErrorStatus::WriteLimitReached) why = std::string("refused with ") + ename(ec) + " instead of WriteLimitReached";
+      else if (pc.out.size() > cap) why = "more bytes than the capacity were written";
+      else if (!ec && pc.out != pw.out) why = "bytes differ between capacities";
+      if (!why.empty()) { R.viol("C06|capacity|" + shape_of(t.sch) + "+Hnd", cid + "|cap" + std::to_string(cap), why, det()); break; }
+    }
+    R.outcome("size-and-capacity-ok");
+  }
+}
+
 int main(int argc, char** argv) {
   A = Args::parse(argc, argv);
   R.only = A.only;
@@ -447,6 +508,13 @@ int main(int argc, char** argv) {
   types.push_back(make_ops<T2<T2<H1, H1>, std::string>>());
   types.push_back(make_ops<T1<std::vector<T2<H7, std::string>>>>());
 #endif
+  for (auto& r : A.rest)
+    if (r == "--c03" || r == "--c06") {
+      for (auto& t : types) check_format_and_size(t, r == "--c06");
+      R.sample("{\"mode\":\"format / size oracles over handle-bearing types through the probe writer\"}");
+      R.finish();
+      return R.violations ? 1 : 0;
+    }
   for (auto& r : A.rest)
     if (r == "--c10") {
       for (auto& t : types) check_io_faults(t);
